@@ -340,6 +340,11 @@ pub fn run(dir: &str, prefix: &str) {
                 let rb: Vec<Value> = e["rb"].as_array().cloned().unwrap_or_default().iter()
                     .map(|p| { let s = p[1].as_str().unwrap_or("!"); json!([p[0], if s == "!" { -1 } else { c.vid(s, &z) }]) }).collect();
                 o["rb"] = json!(rb);
+                for kk in ["empties_n", "empties_head", "empties_tail"] {
+                    if let Some(em) = e.get(kk) {
+                        o[kk] = em.clone();
+                    }
+                }
                 if let Some(em) = e.get("empties") {
                     o["empties"] = em.clone();
                 }
